@@ -33,8 +33,7 @@ from runner import Case
 THEOREMS = [
     "C10.dwf_init", "C10.dwf_step", "C10.dwf_run", "C10.dwf_trace", "C10.history_invariant",
     "C10.assign_only_adds", "C10.delete_exact", "C10.reject_loops",
-    "C10.upfront_check_suffices", "C10.anc_fuel_complete", "C10.assign_list_exact",
-]
+    "C10.upfront_check_suffices", "C10.anc_fuel_complete", "C10.assign_list_exact", "C10.children_arg_kind_irrelevant"]
 PROOF_IMPORTS = ["BigtreeProofs.Properties.C10"]
 CORRESPONDENCE = "DagStore.step / DagStore.run  vs  DAGNode setters, >>, <<, deleters, constructor"
 FAULTS = ["none", "pre", "post"]
@@ -172,6 +171,8 @@ def _hd():
                     _peek(self, new_children); raise core.hook_exc(getattr(HD.ctl, "op", None), "post-children")
 
         _HD = HD
+        # a second user class below the first: DAGs mix the two (a counter or table kept on `type(self)` is per class)
+        HD.Sub = type("HDSub", (HD,), {})
     return _HD
 
 
@@ -182,8 +183,8 @@ class World:
         self.HD.ctl = self.ctl
         self.junk = [None, 7, "s", object()]
         self.pool = {}      # caller-side list objects that are passed to several calls
-        for nm in names:
-            self.HD(nm)
+        for i, nm in enumerate(names):
+            (self.HD.Sub if i % 2 else self.HD)(nm)
 
     @property
     def reg(self):
